@@ -96,6 +96,8 @@ def classify(m):
         return "clause2"
     if msg.startswith("C12-xlate"):
         return "xlate"
+    if msg.startswith("C12-midparse"):
+        return "midparse"
     return "spec-other"
 
 
@@ -133,8 +135,8 @@ def run(tier, seed, replay=None):
         res.violation("harness does not build against the repository (correspondence C12 cannot run)",
                       {"theorem_or_correspondence": "C12 correspondence (build)", "log": bout[-3000:]}, no_failing_input=True)
         return res.finish()
-    for attempt in range(4):   # build/ is shared with the other Layer-C checks
-        orc, oout, runner = ocaml_build("comb_runner", ["comb_model"])
+    for attempt in range(4):   # ocaml/gen is shared with the other Layer-C checks
+        orc, oout, runner = ocaml_build("c12_runner", ["comb_model"])
         if orc == 0:
             break
         time.sleep(1 + attempt)
@@ -208,6 +210,11 @@ def run(tier, seed, replay=None):
                               worst["impl"][:600], "" if prop_bad else "; every limit sweep of this run satisfied both clauses of the property on the real results"),
                           {"theorem_or_correspondence": "C12 correspondence: Vm::parse vs translated closure tree", "case": worst["case"],
                            "grammar": grammar_of(worst["impl"]), "impl": worst["impl"], "searched": stats}, no_failing_input=not prop_bad)
+        elif cls == "midparse":
+            res.violation("correspondence broken: %s (in the model `limit` is a field of the parser state, constant along every run: exec_cl; "
+                          "a limit that changes during a parse is outside the property's quantifier)" % worst["impl"][:700],
+                          {"theorem_or_correspondence": "C12 correspondence: the limit of a parse is the one read when its ParserState is created",
+                           "case": worst["case"], "impl": worst["impl"], "searched": stats}, no_failing_input=not prop_bad)
         elif cls == "harness":
             res.violation("harness failure: " + worst["impl"], {"theorem_or_correspondence": "C12 correspondence (run)", "log": worst["expected"]},
                           no_failing_input=True)
@@ -244,7 +251,10 @@ def run(tier, seed, replay=None):
                 "generator with closures) on 2 random inputs each; random grammars of 1-3 rules (all modifiers, optional WHITESPACE/COMMENT, stack "
                 "built-ins, predicates, bounded repetitions, guarded right recursion) on 3 random inputs each, run by Vm::parse and by their translation; "
                 "for each (tree, input, detail): no limit, then every limit 1..calls+2 (when calls+2 > 48: 1..24, 14 evenly spread, calls-2..calls+2) "
-                "and one limit far above. One evaluation = one run under one limit (full state dump + state() outcome, compared with the model). "
+                "and then the huge limits 2^31-1, 2^31, 2^32-1, 2^32, 2^32+1, 2^32+calls, 2^63, usize::MAX (both clauses checked on them like on any "
+                "other limit; the model runner handles a limit of >= 7 digits symbolically: model run under the stand-in limit 5000, which must end "
+                "with calls < 5000, printed with the original limit - justified by under_limit_simulation). In `witness`: 144 deterministic checks that "
+                "set_call_limit called from inside a closure does not change the running parse. One evaluation = one run under one limit (full state dump + state() outcome, compared with the model). "
                 "non-trivial = distinct (tree, input, detail, limit) with 1 < limit < number of calls of the unlimited parse",
         "exhaustive": True,
         "exhaustive_bound": bounds + " (the theorems are unbounded)",
@@ -257,7 +267,7 @@ def run(tier, seed, replay=None):
         "sweeps": stats.get("sweeps", 0),
         "sweeps_with_nontrivial_limit": stats.get("sweeps_nontrivial", 0),
         "histogram": {k: stats.get(k, 0) for k in ("same", "limit_errors", "limit_panics", "limit_diverged", "unlimited_panics", "diverged",
-                                                   "property_violations", "vm_runs", "grammars", "grammars_rejected", "xlate_mismatches", "max_calls")},
+                                                   "huge_limit_evaluations", "midparse_checks", "midparse_mismatches", "property_violations", "vm_runs", "grammars", "grammars_rejected", "xlate_mismatches", "max_calls")},
     })
     res.assumptions = ["input alphabets of the differential runs: a b U+00E9 B (trees), a b x # 1 space / x y space (grammars) - the theorems are for arbitrary byte strings",
                        "rules are numeric ids in the model; grammars have at most 3 rules + WHITESPACE/COMMENT in the runs",
